@@ -222,6 +222,18 @@ def run(ctx):
         indep = rows[:n][:rng.randrange(1, n + 1)]
         probe('stabilizer_state', lambda: (lambda st: (int(st.r), O.canon_group(impl.ops_of(st)[int(st.r):n])[0]))(pc.stabilizer_state(impl.plist(indep, n))),
               lambda: (lambda st: (int(st.r), O.canon_group(t_ops(st)[int(st.r):n])[0]))(tc.stabilizer_state(tlist(indep, n))), indep)
+        # rejected input: lists with an anticommuting pair, adjacent or far apart in the list (same error in both packages)
+        if n >= 2:
+            ja = rng.randrange(n)
+            others = [rows[j] for j in range(n) if j != ja]
+            rng.shuffle(others)
+            mid = others[:rng.randrange(0, len(others) + 1)]
+            badl = [rows[ja]] + mid + [rows[n + ja]]          # the destabilizer partner anticommutes with rows[ja] only
+            if rng.random() < 0.5:
+                badl.reverse()
+            st_py = lambda: (lambda st: (int(st.r), O.canon_group(impl.ops_of(st)[int(st.r):n])[0]))(pc.stabilizer_state(impl.plist(badl, n)))
+            st_t = lambda: (lambda st: (int(st.r), O.canon_group(t_ops(st)[int(st.r):n])[0]))(tc.stabilizer_state(tlist(badl, n)))
+            probe('stabilizer_state(anticommuting list)', st_py, st_t, badl)
         for nm in ('zero_state', 'one_state', 'maximally_mixed_state', 'ghz_state'):
             if nm == 'ghz_state' and n < 2:
                 continue
